@@ -110,6 +110,18 @@ Step(h, v, ins, pt, D, kind, oldsaved, refresh) ==
              s[k \in 0..Len(x)] == IF k = 0 THEN CZero(D) ELSE CAdd(s[k - 1], x[k])
              r == Fresh(h, <<s[Len(x)]>>, FALSE)
          IN [h |-> r.h, o |-> r.o, sv |-> <<>>, ok |-> TRUE]
+    [] ins.op = "dot" ->      \* dot of two vectors: sum_k a_k b_k
+         LET x == TLCEval(Read(h, v[ins.a]))  y == TLCEval(Read(h, v[ins.b]))
+             s[k \in 0..Len(x)] == IF k = 0 THEN CZero(D) ELSE CAdd(s[k - 1], CMul(x[k], y[k]))
+             r == Fresh(h, <<s[Len(x)]>>, FALSE)
+         IN [h |-> r.h, o |-> r.o, sv |-> <<>>, ok |-> TRUE]
+    [] ins.op = "seta" ->     \* a[...] = b : every cell of the buffer overwritten (values read before any is written)
+         LET tgt == v[ins.a]
+             old == TLCEval(Read(h, tgt))
+             new == TLCEval(Read(h, v[ins.b]))
+             RECURSIVE wr(_, _)
+             wr(k, hh) == IF k > N THEN hh ELSE wr(k + 1, WriteCell(hh, tgt.buf, tgt.cells[k], new[k]))
+         IN [h |-> wr(1, h), o |-> NoneV, sv |-> IF refresh THEN <<0, old>> ELSE oldsaved, ok |-> TRUE]
 
 \* ------------------------------------------------------------------ reference: fresh direct execution of the whole program
 RECURSIVE RefFrom(_, _, _, _, _, _)
@@ -161,7 +173,7 @@ BarInit(k, bh, b, D, V) ==
        IF ~recd[k] THEN BarInit(k + 1, bh, Append(b, NoneV), D, V)
        ELSE IF ins.op = "get" THEN BarInit(k + 1, bh, Append(b, [buf |-> b[ins.a].buf, cells |-> <<b[ins.a].cells[ins.i]>>, arr |-> FALSE]), D, V)
        ELSE IF ins.op = "rev" THEN BarInit(k + 1, bh, Append(b, [buf |-> b[ins.a].buf, cells |-> [c \in 1..N |-> b[ins.a].cells[N + 1 - c]], arr |-> TRUE]), D, V)
-       ELSE IF ins.op = "set" THEN BarInit(k + 1, bh, Append(b, NoneV), D, V)
+       ELSE IF ins.op \in {"set", "seta"} THEN BarInit(k + 1, bh, Append(b, NoneV), D, V)
        ELSE LET n == Len(V[k].cells) IN
             BarInit(k + 1, Append(bh, [i \in 1..n |-> BZero(D)]),
                     Append(b, [buf |-> Len(bh) + 1, cells |-> [i \in 1..n |-> i], arr |-> V[k].arr]), D, V)
@@ -190,6 +202,21 @@ PbStep(k, h, bh, b, V, S) ==
              tgt == V[ins.a]
              h1 == IF S[k] # <<>> THEN WriteCell(h, tgt.buf, tgt.cells[S[k][1]], S[k][2]) ELSE h
          IN [h |-> h1, bh |-> bh2]
+    [] ins.op = "seta" ->
+         LET tb == b[ins.a]
+             yb == TLCEval(Read(bh, tb))
+             RECURSIVE clr(_, _)
+             clr(i, hh) == IF i > N THEN hh ELSE clr(i + 1, [hh EXCEPT ![tb.buf][tb.cells[i]] = BZero(Len(yb[1][1]))])
+             bh2 == IF SetPbViaTemp THEN AccInto(clr(1, bh), b[ins.b], yb, ins.b) ELSE clr(1, AccInto(bh, b[ins.b], yb, ins.b))
+             tgt == V[ins.a]
+             RECURSIVE rs(_, _)
+             rs(i, hh) == IF i > N THEN hh ELSE rs(i + 1, WriteCell(hh, tgt.buf, tgt.cells[i], S[k][2][i]))
+         IN [h |-> IF S[k] # <<>> THEN rs(1, h) ELSE h, bh |-> bh2]
+    [] ins.op = "dot" ->
+         LET zb == TLCEval(Read(bh, b[k]))
+             x == TLCEval(Read(h, V[ins.a]))  y == TLCEval(Read(h, V[ins.b]))
+             bh1 == AccInto(bh, b[ins.a], [i \in 1..Len(x) |-> BMulV(zb[1], y[i])], ins.a)
+         IN [h |-> h, bh |-> AccInto(bh1, b[ins.b], [i \in 1..Len(y) |-> BMulV(zb[1], x[i])], ins.b)]
     [] ins.op \in {"add", "sub"} ->
          LET zb == TLCEval(Read(bh, b[k]))
              bh1 == AccInto(bh, b[ins.a], zb, ins.a)
@@ -227,6 +254,11 @@ Redo(k, h, V) == IF k > Len(prog) THEN h
               ELSE LET ins == prog[k] IN
                    IF ins.op = "set" /\ recd[k]
                    THEN Redo(k + 1, WriteCell(h, V[ins.a].buf, V[ins.a].cells[ins.i], h[V[ins.b].buf][V[ins.b].cells[1]]), V)
+                   ELSE IF ins.op = "seta" /\ recd[k]
+                   THEN LET new == TLCEval(Read(h, V[ins.b]))
+                            RECURSIVE wr(_, _)
+                            wr(i, hh) == IF i > N THEN hh ELSE wr(i + 1, WriteCell(hh, V[ins.a].buf, V[ins.a].cells[i], new[i]))
+                        IN Redo(k + 1, wr(1, h), V)
                    ELSE Redo(k + 1, h, V)
 \* the whole sweep from seeds ybar (Seq over dependent cells of bar cells) on node values V, saved contents S
 SweepWith(h, V, S, ybar, D) ==
@@ -256,6 +288,9 @@ Instrs ==
             /\ ~(prog[ii.a].op = "const" /\ prog[ii.b].op = "const")}        \* a constant expression is not a traced value
   \cup (IF "neg" \in Ops THEN {Ins("neg", a, 0, 0, 0, RZero) : a \in {k \in (ScalarNodes \cup ArrayNodes) \cap Usable : prog[k].op # "const"}} ELSE {})
   \cup (IF "pow" \in Ops THEN {Ins("pow", a, 0, 0, n, RZero) : a \in {k \in (ScalarNodes \cup ArrayNodes) \cap Usable : prog[k].op # "const"}, n \in {-1, 2}} ELSE {})
+  \cup (IF "dot" \in Ops THEN {ii \in {Ins("dot", a, b, 0, 0, RZero) : a \in ArrayNodes \cap Usable, b \in ArrayNodes \cap Usable} : ii.a <= ii.b} ELSE {})
+  \cup (IF "seta" \in Ops THEN {Ins("seta", a, b, 0, 0, RZero) : a \in {k \in ArrayNodes \cap Usable : prog[k].op = "zeros"},
+                                                                  b \in {k \in ArrayNodes \cap Usable : prog[k].op # "zeros"}} ELSE {})
   \cup (IF "sum" \in Ops THEN {Ins("sum", a, 0, 0, 0, RZero) : a \in ArrayNodes \cap Usable} ELSE {})
   \cup (IF "const" \in Ops THEN {Ins("const", 0, 0, 0, 0, c) : c \in ConstCat} ELSE {})
 
@@ -285,7 +320,7 @@ NumRec == Cardinality({k \in 1..Len(prog) : recd[k]})
 \* Function.create + Function.pushforward(Fout = None): compute the value, append the node iff recording
 Rec(ins) ==
   /\ phase = "rec" /\ Len(prog) < MaxInstr + NPre
-  /\ (~tracing => ins.op # "set")
+  /\ (~tracing => ins.op \notin {"set", "seta"})
   /\ LET r == TLCEval(Step(heap, val, ins, cur.pt, 1, "U", <<>>, TRUE)) IN
        /\ r.ok
        /\ heap' = r.h /\ val' = Append(val, r.o) /\ saved' = Append(saved, r.sv)
@@ -306,7 +341,7 @@ Stop ==
   /\ phase = "rec" /\ Len(prog) > NPre /\ recd[Len(prog)] /\ val[Len(prog)] # NoneV
   /\ prog[Len(prog)].op \notin {"const", "zeros"}
   \* every recorded instruction matters: it is the dependent, an in-place write, or an operand of a later one
-  /\ \A k \in (NPre + 1)..(Len(prog) - 1) : (recd[k] /\ prog[k].op # "set") => \E m \in (k + 1)..Len(prog) : recd[m] /\ (prog[m].a = k \/ prog[m].b = k)
+  /\ \A k \in (NPre + 1)..(Len(prog) - 1) : (recd[k] /\ prog[k].op \notin {"set", "seta"}) => \E m \in (k + 1)..Len(prog) : recd[m] /\ (prog[m].a = k \/ prog[m].b = k)
   /\ phase' = "idle" /\ tracing' = FALSE
   /\ hist' = Append(hist, [c |-> "stop"])
   /\ UNCHANGED <<prog, recd, val, saved, heap, cur, ret, bars>>
